@@ -97,7 +97,7 @@ pub fn explore<M: SeqModel>(m: &M, cfg: &SeqConfig) -> SeqResult {
     let mut frontier: Vec<Vec<usize>> = vec![];
     for r in m.roots() {
         let (vs, k) = run_history(m, &r);
-        assert!(vs.iter().all(|v| v.is_empty()), "root history {:?} already violates: {:?}", r, vs.iter().flatten().map(|v| v.detail.clone()).collect::<Vec<_>>());
+        assert!(vs.iter().all(|v| v.iter().all(|x| x.soft)), "root history {:?} already violates: {:?}", r, vs.iter().flatten().map(|v| v.detail.clone()).collect::<Vec<_>>());
         if visited.lock().unwrap().insert(hash128(&k)) {
             frontier.push(r);
         }
